@@ -37,7 +37,7 @@ def mc_all(cfg_suffix, fams=FAMS, cfg_override=None):
 def run_direct_property(prop, eps, sizes, nrandom, want_default, extra_must=None, mc_suffix=None,
                         cfg_override=None, lifts=1, evidence_extra=None, reject_is_violation=None,
                         rows_fn=None, fams=FAMS, decl_filter=None, nshards=4, const_twins=False, extra_mc=(), sweeps=False, generic_history=False,
-                        gate_fn=None):
+                        gate_fn=None, release_twins=0):
     """Generic driver: model-check the four family slices, replay a seeded sample of the TLC-enumerated
     declarations (every enumerated input and more) into freshly generated code, validate the recorded
     trace against the specification."""
@@ -117,6 +117,26 @@ def run_direct_property(prop, eps, sizes, nrandom, want_default, extra_must=None
                 fam, prop, list(rejected.items())[:2]))
         alive_decls = [d for d in decls if d["id"] in set(alive)]
         CV.judge_trace(prop, verdict, name, alive_decls, obs, stats)
+        if release_twins:
+            # the same declarations built with the release profile (no debug_assertions, no overflow checks): generated code
+            # must not behave differently there (e.g. a check under #[cfg(debug_assertions)])
+            import copy
+            cands = [d for d in alive_decls if not d.get("const_fn") and not d.get("gen_decl")]
+            cands.sort(key=lambda d: (not ("Default" in d["traits"] and d["dflt"] and d["vmode"] != "none"), d["id"]))
+            twins = []
+            for d in cands[:release_twins]:
+                tw = copy.deepcopy({k: v for k, v in d.items() if k != "_phi"})
+                if "_phi" in d:
+                    tw["_phi"] = d["_phi"]
+                tw["id"] = d["id"] + "_r"
+                tw["minimal_driver"] = True
+                twins.append(tw)
+            if twins:
+                r_obs, _r_rej, r_alive = CV.build_and_run(name + "_rel", twins, lambda d_, _rng=rng: CV.rows_direct(d_, _rng, 8, eps=eps, with_default=want_default),
+                                                           feats, feats, nshards=2, release=True)
+                r_decls = [d for d in twins if d["id"] in set(r_alive)]
+                CV.judge_trace(prop, verdict, name + "_rel", r_decls, r_obs, stats)
+                stats["release_profile_twins"] = stats.get("release_profile_twins", 0) + len(r_decls)
         all_decls.extend(alive_decls)
         if alive_decls:
             samples_out.append({"family": fam, "declaration": CV.describe_decl(alive_decls[0]).strip().splitlines()[-8:]})
@@ -163,6 +183,7 @@ def run_direct_property(prop, eps, sizes, nrandom, want_default, extra_must=None
     cov = {
         "states": mc_states, "transitions": mc_trans,
         "traces_validated_against_impl": stats.get("trace_pairs", 0),
+        "release_profile_twins": stats.get("release_profile_twins", 0),
         "declarations_that_must_be_refused": {"built": stats.get("gate_declarations", 0), "refused": stats.get("gate_refused", 0)},
         "trace_events": stats.get("trace_events", 0),
         "declaration_space_enumerated_by_tlc": n_decl_space,
@@ -284,7 +305,7 @@ def check_C03():
     q = tier() == "quick"
     sizes = {"int": 60, "float": 40, "string": 60, "any": 40} if q else {"int": 300, "float": 200, "string": 300, "any": None}
     eps = {"try_from", "from", "try_from_ref", "from_ref", "from_str_s", "default", "try_new", "new"}
-    return run_direct_property("C03", eps, sizes, 30 if q else 200, True, generic_history=True)
+    return run_direct_property("C03", eps, sizes, 30 if q else 200, True, generic_history=True, release_twins=12 if q else 60)
 
 
 def check_C07():
